@@ -305,6 +305,19 @@ WHOLE_THM = {
            "table - and with C08b.analysis_reads_alias_sets the analysis of every other module - unchanged), counterexamples "
            "same_short_name_interferes, substring_package_test.",
 }
+COMPOSED = {
+    "C05": " COMPOSITION of the two halves (Theorems/C05b): hint_type, hint_to_stub_text (if the analyser translates a mypy type "
+           "and the generator renders the result, the text is Spec.typeText of Spec.MypyMap.mapTypeUn of the mypy type - the "
+           "composition of the two models is the composition of the two specifications), same_hint_same_text.",
+    "C06": " COMPOSITION (Theorems/C06b): def_to_stub_parameters (from the argument list of a def through parseParameters and "
+           "createParameterString: exactly the non-receiver arguments, in source order, under their converted, escaped names, "
+           "annotated iff the name changed).",
+    "C07": " COMPOSITION (Theorems/C07b): annotated_none_stub (-> None: one API result, no result in the stub), "
+           "annotated_single_api / annotated_single_stub (-> T: exactly one result result_1 whose text is the specified text of "
+           "the specified mapping of the mypy type).",
+}
+for _p, _t in COMPOSED.items():
+    TEXT[_p]["text"] = TEXT[_p]["text"] + _t
 for _p, _t in WHOLE_THM.items():
     TEXT[_p]["text"] = TEXT[_p]["text"] + WHOLE + _t
     TEXT[_p]["technique"] = TEXT[_p]["technique"] + " + whole-tool correspondence S-P (real _run_stub_generator vs Model/Pipeline.runTool, byte-exact)"
